@@ -149,6 +149,53 @@ func c10(c *Ctx) {
 			}
 			c.Check(ok && d && argOK, "R3", "sdk/trace|(*recordingSpan).End|OnEnd fan-out total", at(ix.M, x.N.Pos()),
 				"every loaded processor receives OnEnd(snapshot) on every iteration", "a registered processor can be skipped, or receives something other than the one snapshot: "+why)
+			// … and the fan-out is reached: once the span is marked ended, every way out of End goes through the loop over the
+			// loaded processors, except where that list is known to be empty (a span that is ended but never delivered is lost:
+			// "delivered to every registered processor exactly once" has no second chance, End is a no-op from then on)
+			var loop *ast.RangeStmt
+			inspectNoLit(end.Body(), func(n ast.Node) bool {
+				if r, isR := n.(*ast.RangeStmt); isR && containsNoLitOrIn(r.Body, x.N) {
+					loop = r
+				}
+				return true
+			})
+			if loop == nil {
+				c.Undecided("R3", "sdk/trace|(*recordingSpan).End|the fan-out is reached once the span is ended", at(ix.M, x.N.Pos()), "OnEnd is not called from a range loop over the processors")
+			} else {
+				head := g.NodeOf(loop.X)
+				ranged := objOf(info, loop.X)
+				empty := func(ed *GEdge) bool {
+					return ranged != nil && edgeImplies(ed, func(cnd ast.Expr, pol int) bool {
+						l, op, r, okc := cmpNorm(cnd, pol)
+						if !okc {
+							return false
+						}
+						isLen := func(e ast.Expr) bool {
+							return isLenOf(info, e, func(y ast.Expr) bool { return objOf(info, y) == ranged })
+						}
+						if v, isC := constInt(info, r); isC && isLen(l) {
+							return (op == token.EQL && v == 0) || (op == token.LEQ && v == 0) || (op == token.LSS && v == 1)
+						}
+						if v, isC := constInt(info, l); isC && isLen(r) {
+							return (op == token.EQL && v == 0) || (op == token.GEQ && v == 0) || (op == token.GTR && v == 1)
+						}
+						return false
+					})
+				}
+				reached, whyR := head != nil, ""
+				for _, st := range stores {
+					if head == nil {
+						break
+					}
+					seen, par := g.Reach([]*GNode{st}, func(y *GNode) bool { return y == head }, empty)
+					if seen[g.Exit] {
+						reached, whyR = false, g.pathLines(par, g.Exit)
+					}
+				}
+				c.Check(reached, "R3", "sdk/trace|(*recordingSpan).End|the fan-out is reached once the span is ended", at(ix.M, loop.Pos()),
+					"after the endTime store every exit passes the loop over the loaded processors (or the list is empty)",
+					"End can mark the span ended and return without delivering it to the registered processors ("+whyR+"): the span is never exported, and a later End is a no-op")
+			}
 		}
 	}
 	g = ix.FG(end)
